@@ -1140,6 +1140,9 @@ func (self *LockManager) ProcessLockData(command *protocol.LockCommand, lock *Lo
 					i += 4
 					continue
 				}
+				if i+4+valueLen > len(self.currentData.data) {
+					break
+				}
 				values = append(values, self.currentData.data[i+4:i+4+valueLen])
 				i += valueLen + 4
 			}
@@ -1324,6 +1327,9 @@ func (self *LockManager) ProcessRecoverLockData(lock *Lock) {
 					i += 4
 					continue
 				}
+				if i+4+valueLen > len(self.currentData.data) {
+					break
+				}
 				value := self.currentData.data[i+4 : i+4+valueLen]
 				values = append(values, value)
 				i += valueLen + 4
@@ -1364,6 +1370,9 @@ func (self *LockManager) ProcessRecoverLockData(lock *Lock) {
 				if valueLen == 0 {
 					i += 4
 					continue
+				}
+				if i+4+valueLen > len(self.currentData.data) {
+					break
 				}
 				values = append(values, self.currentData.data[i+4:i+4+valueLen])
 				i += valueLen + 4
